@@ -87,9 +87,12 @@ def install_cache_guard():
         out = orig(*a, **k)
         state["n"] += 1
         try:
-            if state["n"] % 20 == 0 and _core.trace_state_clean() and nmaps() > 25000:
-                jax.clear_caches()
-                gc.collect()
+            # (not `n % 20 == 0`: a harness whose every 4th call runs under jax.grad would never be checked)
+            if state["n"] >= 20 and _core.trace_state_clean():
+                state["n"] = 0
+                if nmaps() > 25000:
+                    jax.clear_caches()
+                    gc.collect()
         except Exception:
             pass
         return out
@@ -306,10 +309,15 @@ def main():
                                                   "harness_frame": f"{tb[1].filename}:{tb[1].lineno}" if len(tb) > 1 else "",
                                                   "finding_class": None}]}
         else:
+            # the harness itself raised, outside the implementation: on the unchanged tree this does not happen, so the
+            # correspondence between model and code can no longer be evaluated -> the property is no longer shown to
+            # hold; reported as a violation without a failing input (and as an internal error in the log)
             traceback.print_exc()
             print("INTERNAL ERROR: harness crashed")
             res = {"evaluations": 0, "distinct_nontrivial": 0, "rule": "harness crashed",
-                   "samples": [], "violations": []}
+                   "samples": [], "violations": [{"kind": "the correspondence check could not be evaluated: the harness raised outside the implementation",
+                                                  "error": repr(ex)[:500], "trace": traceback.format_exc()[-1500:],
+                                                  "no_failing_input_found": True, "finding_class": None}]}
             internal_error = True
 
     known = load_known()
